@@ -995,9 +995,20 @@ func (se *SpecEnv) heapFunc(pf *PureFunc, args []Val) (Val, error) {
 				bt = mkSlice("0", "0", "0", "0")
 			}
 			lhs := app(level, qs)
-			fc.vc.assert("(forall (" + strings.Join(decl, " ") + ") (! (and (= " + lhs + " " + bt + ") (= " + lhs + " " + app(level-1, qs) + ")) :pattern (" + lhs + ")))")
+			fc.vc.assertGlobal("(forall (" + strings.Join(decl, " ") + ") (! (and (= " + lhs + " " + bt + ") (= " + lhs + " " + app(level-1, qs) + ")) :pattern (" + lhs + ")))")
 			// typing: for arguments allocated in this state the result (read from the heap) is well typed here
 			frontier := fc.compAt(se.st, "alloc", "Int")
+			allBase := true
+			for _, ct := range compTerms {
+				if !strings.HasSuffix(ct, "@0") {
+					allBase = false
+				}
+			}
+			if allBase {
+				// every component read is still the entry version: results are entry-state values
+				frontier = baseName("alloc", 0)
+				fc.vc.declare(frontier, "Int")
+			}
 			var guards []string
 			for i, p := range pf.Params {
 				switch p.Type.Underlying().(type) {
@@ -1007,10 +1018,10 @@ func (se *SpecEnv) heapFunc(pf *PureFunc, args []Val) (Val, error) {
 			}
 			wt := fc.wellTyped(lhs, pf.Ret, frontier, 1)
 			if wt != "true" {
-				fc.vc.assert("(forall (" + strings.Join(decl, " ") + ") (! " + mkImplies(mkAnd(guards...), wt) + " :pattern (" + lhs + ")))")
+				fc.vc.assertGlobal("(forall (" + strings.Join(decl, " ") + ") (! " + mkImplies(mkAnd(guards...), wt) + " :pattern (" + lhs + ")))")
 				if level == 1 {
 					l0 := app(0, qs)
-					fc.vc.assert("(forall (" + strings.Join(decl, " ") + ") (! " + mkImplies(mkAnd(guards...), fc.wellTyped(l0, pf.Ret, frontier, 1)) + " :pattern (" + l0 + ")))")
+					fc.vc.assertGlobal("(forall (" + strings.Join(decl, " ") + ") (! " + mkImplies(mkAnd(guards...), fc.wellTyped(l0, pf.Ret, frontier, 1)) + " :pattern (" + l0 + ")))")
 				}
 			}
 		}
